@@ -40,8 +40,11 @@ func (e *ModelError) Error() string {
 // case is then discarded (a generator problem, never a verdict).
 type OutOfModel struct{ Why string }
 
-type hidden struct{ b bool }          // value of includeIfExists: renders nothing
-type fnValue struct{ name string }    // a built-in / registered function used as a value
+type hidden struct{ b bool }       // value of includeIfExists: renders nothing
+type fnValue struct{ name string } // a built-in / registered function used as a value
+// iieReturn: what a template run by includeIfExists() returned, on its way to the statement around the call
+type iieReturn struct{ v interface{} }
+
 type errValue struct{ e *ModelError } // value bound by {{catch e}}
 
 type blockDef struct {
@@ -73,6 +76,7 @@ type Interp struct {
 	files   map[string]*File
 	tables  map[string]map[string]*blockDef
 	writers []*bytes.Buffer // writers[0] is the real destination; nil entry = discard
+	iieRet  *iieReturn      // see iieReturn
 	scope   *frame
 	ctx     interface{}
 	content *closure
@@ -510,11 +514,16 @@ func (in *Interp) stmt(n *Node) (ret interface{}, has bool) {
 		in.raw([]byte(n.EffText()))
 	case "comment":
 	case "print":
+		in.iieRet = nil
 		v, written := in.evalTop(n, n.E)
 		if rc, ok := v.(RendChunks); ok && !written {
 			in.renderChunks(n, rc)
 		} else if !written {
 			in.raw(in.escape(PrintValue(v)))
+		}
+		if r := in.iieRet; r != nil {
+			in.iieRet = nil
+			return r.v, true
 		}
 	case "let", "set":
 		in.assign(n, n)
@@ -1023,10 +1032,10 @@ func (in *Interp) eval(at *Node, e *Expr) interface{} {
 		return in.ctx
 	case "field":
 		v := in.ctx
-		for _, f := range e.Fields {
+		for i, f := range e.Fields {
 			var ok bool
 			v, ok = in.member(at, v, f)
-			if !ok {
+			if !ok && i < len(e.Fields)-1 { // (an absent key in last position is nil, as for x.a.absent)
 				in.fail(at, "unknown-field", "no entry %s", f)
 			}
 		}
@@ -1346,7 +1355,11 @@ func (in *Interp) call(at *Node, name string, argExprs []*Expr, piped interface{
 			r, _ := in.list(in.rootOf(f))
 			return r
 		}
-		in.list(in.rootOf(f))
+		if r, h := in.list(in.rootOf(f)); h {
+			// includeIfExists behaves like include for a template that is there: a return executed in it is a return
+			// executed by whoever runs the including template (handed on by the statement the call stands in)
+			in.iieRet = &iieReturn{r}
+		}
 		return hidden{true}
 	}
 	panic(OutOfModel{"function " + name + " is not modelled"})
